@@ -54,6 +54,7 @@ class Obl:
         self.model_variant = None
         self.k = None
         self.replay = None         # dict describing the replay on the real code
+        self.theory_detail = ""
         self.smt2 = None
 
     def as_json(self):
@@ -72,6 +73,8 @@ def aggregate(G, results, theory):
         o = by.setdefault(inst.oid, Obl(inst.oid))
         o.n += 1
         o.kind = inst.kind
+        if inst.L.closures:
+            o.theory_detail = "closure"
         o.theory = theory
         o.ms = max(o.ms, r["ms"])
         o.backends.add(r["backend"])
@@ -87,6 +90,16 @@ def aggregate(G, results, theory):
     return by
 
 
+_GEN_CACHE = {}
+
+
+def generate_cached(repo, con, k):
+    key = (con.qual, k)
+    if key not in _GEN_CACHE:
+        _GEN_CACHE[key] = generate(repo, con, k=k)
+    return _GEN_CACHE[key]
+
+
 def finite_search(repo, con, oids, kmax, budget_ms):
     """Finite exact mode: look for a counter-model of any of `oids` with k = 1..kmax nodes."""
     found = {}
@@ -94,7 +107,7 @@ def finite_search(repo, con, oids, kmax, budget_ms):
         todo = [o for o in oids if o not in found]
         if not todo:
             break
-        G = generate(repo, con, k=k)
+        G = generate_cached(repo, con, k)
         if G.out_of_subset:
             break
         insts = [i for i in G.instances if i.oid in todo]
@@ -247,7 +260,117 @@ def bounded_sweep(repo, con, registry, tier, seed):
     return stats
 
 
+def exhaustive_inputs(con, variant, n, cap, rng):
+    """All inputs of a variant over a universe of n nodes (graphs on all n nodes or on the first n-1; every edge set;
+    every node subset / node / order prefix); sampled down to `cap` when the product is larger."""
+    import itertools
+    kinds = {p: k for p, k in variant.items() if isinstance(k, str) and k not in ("none", "omit")}
+
+    def graphs():
+        for present in ([list(range(n))] + ([list(range(n - 1))] if n > 1 else [])):
+            pd = [(i, j) for i in present for j in present if i != j]
+            pu = [(i, j) for i in present for j in present if i < j]
+            for dm in range(1 << len(pd)):
+                d = [e for b, e in enumerate(pd) if dm >> b & 1]
+                for um in range(1 << len(pu)):
+                    yield {"kind": "graph", "nodes": present, "directed": d, "undirected": [e for b, e in enumerate(pu) if um >> b & 1]}
+
+    def dom(kind):
+        if kind == "graph":
+            return list(graphs())
+        if kind == "nodeset":
+            return [{"kind": "nodeset", "members": list(c)} for r in range(n + 1) for c in itertools.combinations(range(n), r)]
+        if kind == "node":
+            return [{"kind": "node", "index": i} for i in range(n)]
+        if kind == "bool":
+            return [{"kind": "bool", "value": b} for b in (False, True)]
+        if kind == "seq":
+            return [{"kind": "seq", "items": list(p)} for r in range(n + 1) for p in itertools.permutations(range(n), r)]
+        if kind in ("digraph", "ugraph"):
+            pairs = [(i, j) for i in range(n) for j in range(n) if (i != j if kind == "digraph" else i < j)]
+            return [{"kind": kind, "nodes": list(range(n)), "edges": [e for b, e in enumerate(pairs) if mk >> b & 1]}
+                    for mk in range(1 << len(pairs))]
+        if kind == "pairs":
+            pairs = [(i, j) for i in range(n) for j in range(n) if i != j]
+            return [{"kind": "pairs", "pairs": [e for b, e in enumerate(pairs) if mk >> b & 1]} for mk in range(1 << len(pairs))]
+        raise ValueError(kind)
+    doms = {p: dom(k) for p, k in kinds.items()}
+    total = 1
+    for d in doms.values():
+        total *= len(d)
+    names = list(doms)
+    if total <= cap:
+        for combo in itertools.product(*[doms[p] for p in names]):
+            m = {"k": n, "order": list(range(n)), "interventions": []}
+            m.update(dict(zip(names, combo)))
+            yield m
+    else:
+        for _ in range(cap):
+            m = {"k": n, "order": rng.sample(range(n), n), "interventions": []}
+            for p in names:
+                m[p] = rng.choice(doms[p])
+            yield m
+
+
+_FB = {}
+
+
+def _fb_eval(job):
+    vi, m = job
+    repo, con, registry = _FB["ctx"]
+    try:
+        rep = replay_model(repo, con, vi, m, registry)
+    except Exception as e:
+        return ("error", repr(e), None)
+    ev = rep["contract"]
+    if not ev["pre"]:
+        return ("pre", None, None)
+    bad = [c for c, v in ev["clauses"].items() if v is False]
+    if rep["outcome"][0] == "raise" and ev["raise_allowed"] is False:
+        bad.append("raise." + rep["outcome"][1])
+    bad += ["must-raise." + e for e, v in ev["must_raise"].items() if v is False]
+    return ("bad", bad, rep) if bad else ("ok", None, None)
+
+
+def fallback_sweep(repo, con, registry, tier, seed):
+    """The bounded stand-in proper: exhaustive over universes of <= 3 nodes (plus sampled 4-node inputs in the thorough
+    tier), run when a function's obligations are undecided.  Labelled bounded, never counted as proved."""
+    import multiprocessing as mp
+    rng = random.Random(repr((seed, con.qual, "fb")))
+    jobs = []
+    for vi, variant in enumerate(con.variants()):
+        for n in (1, 2, 3):
+            jobs += [(vi, m) for m in exhaustive_inputs(con, variant, n, 5000, rng)]
+        jobs += [(vi, m) for m in exhaustive_inputs(con, variant, 4, 1500 if tier == "quick" else 6000, rng)]
+        if tier == "thorough":
+            jobs += [(vi, m) for m in exhaustive_inputs(con, variant, 5, 3000, rng)]
+    _FB["ctx"] = (repo, con, registry)
+    stats = {"evaluations": 0, "pre_false": 0, "failures": [], "errors": [], "scope": "all inputs over universes of 1..3 nodes"
+             + (" + 1500 sampled 4-node inputs per variant" if tier == "quick" else " + 6000 sampled 4-node and 3000 sampled 5-node inputs per variant")
+             + " (cap 5000 per variant and size)"}
+    ctx = mp.get_context("fork")
+    with ctx.Pool(min(16, os.cpu_count() or 4)) as pool:
+        for kind, bad, rep in pool.imap_unordered(_fb_eval, jobs, chunksize=32):
+            if kind == "ok":
+                stats["evaluations"] += 1
+            elif kind == "pre":
+                stats["pre_false"] += 1
+            elif kind == "error":
+                stats["errors"].append(bad)
+            else:
+                stats["evaluations"] += 1
+                stats["failures"].append((bad, rep))
+    stats["failures"].sort(key=lambda f: (f[1]["model"]["k"], len(json.dumps(f[1]["inputs"]))))
+    return stats
+
+
 # ------------------------------------------------------------------------------------------------ known findings
+def load_baseline():
+    if BASELINE.exists():
+        return json.loads(BASELINE.read_text())
+    return {}
+
+
 def load_known():
     if KNOWN.exists():
         return json.loads(KNOWN.read_text())
@@ -281,6 +404,8 @@ class Report:
         self.samples = []
         self.solver_ms = 0.0
         self.cover = {"checked": 0, "sat": 0}
+        self.fallbacks = []
+        self.baseline = set(load_baseline().get(pid, []))
 
 
 def check_contract(rep: Report, repo, con, registry, known_open, budget_ms, kmax):
@@ -323,6 +448,12 @@ def check_contract(rep: Report, repo, con, registry, known_open, budget_ms, kmax
             rep.undecided.append(o)
             continue
         # refuted
+        if o.model is None and "closure" in o.theory_detail and o.oid not in rep.baseline:
+            # a `sat` answer over the axiomatised closures is only a candidate (DESIGN §2.5); without a finite model it counts
+            # as refuted only for an obligation that is discharged on the unchanged tree (baseline/obligations.json)
+            o.status, o.reason = "undecided", "candidate counter-model over axiomatised closures, none found in finite exact mode"
+            rep.undecided.append(o)
+            continue
         payload = {"property": pid, "obligation": o.oid, "function": con.qual, "source_sha": G.used_funcs.get(con.qual),
                    "solver": sorted(o.backends), "status": "refuted", "finite_k": o.k, "note": o.note}
         confirmed = None
@@ -350,7 +481,7 @@ def check_contract(rep: Report, repo, con, registry, known_open, budget_ms, kmax
 def _cover_ok(repo, con, rep):
     import z3
     for k in (2, 3):
-        G = generate(repo, con, k=k)
+        G = generate_cached(repo, con, k)
         for L, pc, probes, vi in G.cover:
             rep.cover["checked"] += 1
             s = z3.Solver()
@@ -381,14 +512,24 @@ def run(pid, tier, seed, extra=None):
             except Exception:
                 rep.errors.append(f"{con.qual}: " + traceback.format_exc())
         # bounded stand-in / CPython cross-check of the same contracts on the real functions
+        undecided_funcs = {o.oid.split("/")[0] for o in rep.undecided}
         for con in cons:
             try:
-                st = bounded_sweep(repo, con, registry, tier, seed)
+                if con.qual in undecided_funcs:
+                    st = fallback_sweep(repo, con, registry, tier, seed)
+                    rep.fallbacks.append({"function": con.qual, "scope": st["scope"], "evaluations": st["evaluations"],
+                                          "failures": len(st["failures"])})
+                else:
+                    st = bounded_sweep(repo, con, registry, tier, seed)
             except Exception:
                 rep.errors.append(f"bounded sweep {con.qual}: " + traceback.format_exc())
                 continue
             rep.bounded.append({"function": con.qual, "evaluations": st["evaluations"], "pre_false": st["pre_false"],
                                 "failures": len(st["failures"]), "errors": st.get("errors", [])[:2]})
+            if st.get("errors"):
+                rep.errors.append(f"bounded evaluation of {con.qual} failed on {len(st['errors'])} inputs: {st['errors'][0]}")
+            if st["evaluations"] == 0:
+                rep.errors.append(f"bounded evaluation of {con.qual}: the contract was never evaluated")
             for bad, r in st["failures"][:1]:
                 oid = f"{con.qual}/bounded.{bad[0]}"
                 already = any(v[0].startswith(con.qual + "/") for v in rep.violations)
@@ -408,6 +549,15 @@ def run(pid, tier, seed, extra=None):
 
 def finish(rep: Report, cons):
     pid = rep.pid
+    present = {o.oid for o in rep.obls}
+    gone_funcs = {o.oid[:-2] for o in rep.obls if o.oid.endswith("/*")}
+    for oid in sorted(rep.baseline - present):
+        if oid.split("/")[0] in gone_funcs:
+            continue
+        o = Obl(oid)
+        o.status, o.reason = "undecided", "obligation of the baseline was not generated on this tree"
+        rep.obls.append(o)
+        rep.undecided.append(o)
     wall = time.time() - rep.t0
     n_obl = len([o for o in rep.obls if not o.oid.endswith("/*")])
     n_dis = len([o for o in rep.obls if o.status == "discharged"])
@@ -429,6 +579,7 @@ def finish(rep: Report, cons):
         "undecided": [o.oid for o in rep.undecided],
         "known_findings_open": rep.known_lines,
         "bounded_parts": rep.bounded,
+        "bounded_fallbacks_for_undecided": rep.fallbacks,
         "extra_parts": rep.extra_parts,
         "lemmas_used": sorted(rep.lemmas),
         "solver_ms_total": round(rep.solver_ms, 1),
